@@ -200,7 +200,6 @@ def _bb_target(name, eos_short):
 
     @target(name, ['eos'], deriv=None)
     def _b():
-        from ..sym import Rec, Patched, explore
         return trace_func(name, fn, [], None, modules=[BBMOD, EOSMOD], pvars=('r',), tvar='t',
                           source=BBMOD + ':NohBlackBoxEos._run (%s)' % EOS_CLASSES[eos_short][0])
     return _b
